@@ -115,7 +115,10 @@ func (t *Timer) Cancel() error {
 	err := t.it.Unset()
 	if err == nil {
 		t.cancelled = true
-		t.state = stateReady
+		if t.state != stateClosed {
+			// a closed timer stays closed
+			t.state = stateReady
+		}
 	}
 	return err
 }
